@@ -1038,15 +1038,19 @@ void ICACHE_FLASH_ATTR supla_esp_mqtt_prepare_val(char buffer[25],
   uint8 m = 0;
   uint8 offset = 0;
 
+  // The digits are taken from an unsigned copy: values above INT64_MAX
+  // (is_unsigned) and INT64_MIN are rendered correctly.
+  unsigned _supla_int64_t uvalue = value;
+
   if (!is_unsigned && (_supla_int64_t)value < 0) {
-    value = (_supla_int64_t)value * -1;
+    uvalue = 0 - uvalue;
     minus = 1;
   }
 
-  unsigned _supla_int64_t v = value;
+  unsigned _supla_int64_t v = uvalue;
   while (v != 0) {
     if (!m && precision && v % 10 == 0) {
-      value /= 10;
+      uvalue /= 10;
       precision--;
     } else {
       m = 1;
@@ -1060,7 +1064,7 @@ void ICACHE_FLASH_ATTR supla_esp_mqtt_prepare_val(char buffer[25],
     offset++;
   }
 
-  if (value == 0) {
+  if (uvalue == 0) {
     precision = 0;
     n++;
   } else if (precision > 0) {
@@ -1086,8 +1090,8 @@ void ICACHE_FLASH_ATTR supla_esp_mqtt_prepare_val(char buffer[25],
         offset--;
       }
     }
-    buffer[n + offset - 1] = value % 10 + '0';
-    value /= 10;
+    buffer[n + offset - 1] = uvalue % 10 + '0';
+    uvalue /= 10;
     n--;
   }
 }
